@@ -582,7 +582,7 @@ static void run_case(char* line) {
     case 'W': uv__wait_children(&loop); break;
     case 'K':
       if (sscanf(tok + 1, "%d:%d", &a, &b) == 2 && a >= 0 && a < MAXP && procs[a])
-        { int r; killed_h[a] = (b != 0); in_uv_kill = 1; r = uv_process_kill(procs[a], b); in_uv_kill = 0; OUT("k%d:%d ", a, r); }
+        { int r; in_uv_kill = 1; r = uv_process_kill(procs[a], b); in_uv_kill = 0; if (r == 0 && b != 0) killed_h[a] = 1; OUT("k%d:%d ", a, r); }
       break;
     case 'P': case 'N':
       if (sscanf(tok + 1, "%d:%d", &a, &b) == 2 && a >= 0 && a < MAXP && spawned[a]) {
@@ -635,6 +635,9 @@ static void run_case(char* line) {
         /* the poller: keeps its loop turning until the other side hangs up */
         char b;
         int gn;
+        static uv_timer_t keepalive;     /* uv_run() polls for I/O only while the loop is alive */
+        uv_timer_init(&loop, &keepalive);
+        uv_timer_start(&keepalive, (uv_timer_cb) close_cb, 3600 * 1000, 0);
         close(ping[1]); close(pong[0]);
         for (gn = 0; gn < 32; gn++) if (gate_open[gn]) close(GATE_W(gn));   /* the gates belong to the other side */
         for (;;) {
